@@ -1150,7 +1150,9 @@ func runC19(c *vk.Ctx) {
 				}
 				for k := range a.Txs {
 					x, y := a.Txs[k], b.Txs[k]
-					if k > 0 {
+					// (wasmd's per-block transaction counter is touched by the first transaction that gets as far as its ante
+					// decorator: transactions rejected earlier in the ante chain do not count)
+					if k > 0 && a.Txs[k-1].Code == 0 {
 						firstTxSeen = true
 					}
 					if x.Code != y.Code || x.Codespace != y.Codespace || x.Data != y.Data || x.Events != y.Events || x.GasUsed != y.GasUsed {
@@ -1181,8 +1183,10 @@ func runC19(c *vk.Ctx) {
 						return
 					}
 				}
-				if len(a.Txs) > 0 {
-					firstTxSeen = true
+				for _, x := range a.Txs {
+					if x.Code == 0 {
+						firstTxSeen = true
+					}
 				}
 				if a.BlockEvents != b.BlockEvents {
 					c.Violate("C19.block_events", sig, "height %d: begin/end-block events differ between the primary and %s\nprimary: %s\n%s: %s", h, j.tag, trunc(a.BlockEvRaw, 2000), j.tag, trunc(b.BlockEvRaw, 2000))
